@@ -43,7 +43,9 @@ ANCHOR_FILES = _anchor_files()
 
 
 TECH_COMMON = (
-    'scoped def-use / liveness lint (R00); findings of every other rule '
+    'scoped def-use / liveness / field-effect lint (R00: stale query across '
+    'a configuration call, cache and alias contradictions, gradient '
+    'completeness, numpy hazards); findings of every other rule '
     'located in code that the property\'s observation points execute '
     '(resolved call graph closed under field writers)')
 
@@ -351,7 +353,8 @@ prop('C14',
          'semantics for the enumerated idioms'],
      technique='row-filter provenance dataflow over the DataFrame idioms of '
                'the controller; def-use and guard analysis of the regimen '
-               'hand-over',
+               'hand-over; must-pass-through (path walk) of set_n_ids after '
+               'the set of individuals changes',
      explanation='Decides which rows of the dataset reach each sink: times '
                  'and observations of an output (own ID, mapped observable, '
                  'non-missing, same frame), covariate matrix entries (own '
@@ -389,7 +392,8 @@ prop('C16',
      assumptions=COMMON_ASSUME + [
          'np.random.default_rng(g) returns a passed-in Generator unchanged'],
      technique='RNG-stream provenance dataflow ({NONE,INT,GEN} powerset) '
-               'over every function that takes a seed',
+               'over every function that takes a seed; who-must-pass rule '
+               'for a seed stored on the object',
      explanation='Decides the stream structure behind C16: global-stream '
                  'draws are dominated by a seeding from the seed parameter, '
                  'an integer seed never fans out to several stochastic '
